@@ -7,9 +7,9 @@ LEVEL_TEXT = ("Proof of the truth-cache invariant and soundness of Backend.is_tr
               "BackendZ3._is_true (z3.simplify to a literal) are trusted wrappers listed below.")
 TECHNIQUE = "class-invariant proof by symbolic execution of the real methods (pyvc, z3)"
 M = "vf.contracts.truth"
-FUNCTIONS = ["Backend.is_true", "Backend.is_false", "BackendConcrete.is_true", "BackendConcrete.is_false", "BackendConcrete._is_true",
+FUNCTIONS = ["Backend.__init__", "Backend.downsize", "BackendZ3._is_true", "BackendZ3._is_false", "Backend.is_true", "Backend.is_false", "BackendConcrete.is_true", "BackendConcrete.is_false", "BackendConcrete._is_true",
              "BackendConcrete._is_false", "bool_check.is_true", "bool_check.is_false"]
-TRUSTED = ["z3.simplify is meaning preserving (BackendZ3._is_true/_is_false compare its result with the literal)",
+TRUSTED = ["z3.simplify is meaning preserving (contract used for BackendZ3._is_true/_is_false: an equivalent term, the literal only if the fact holds)",
            "C01: folding of concrete Bool expressions is exact (convert of a concrete Bool is its value)",
            "C06: the cache key e.hash() identifies the expression",
            "frontend is_true/is_false layers pass the question to the backend unchanged (FullFrontend, ConcreteHandlerMixin, ConstraintFilterMixin): checked in the bounded C11 histories only",
@@ -23,4 +23,7 @@ def tasks(tier, seed=0):
         out.append(task(M, "ob_backend_cache", f"truth.Backend.{w}/cache-invariant", ["C10"], which=w))
         out.append(task(M, "ob_concrete_truth", f"truth.BackendConcrete.{w}/sound", ["C10"], which=w))
         out.append(task(M, "ob_bool_check", f"truth.bool_check.{w}/sound", ["C10"], which=w))
+        out.append(task(M, "ob_z3_truth", f"truth.BackendZ3._{w}/sound-for-every-solver", ["C10"], which=w))
+    out.append(task(M, "ob_backend_init_downsize", "truth.Backend.__init__+downsize/caches-separate-and-empty", ["C10"]))
+    out.append(task(M, "ob_cache_writers", "truth.caches/only-methods-under-contract-touch-them", ["C10"]))
     return out
